@@ -6,6 +6,7 @@ import (
 	"sort"
 	"strconv"
 	"strings"
+	"unsafe"
 )
 
 type command struct {
@@ -131,6 +132,9 @@ func init() {
 			e := c.get(c.Argv[1])
 			if e == nil {
 				return Int(0)
+			}
+			if e.kind != 's' {
+				return Err(wrongType)
 			}
 			return Int(int64(len(e.s)))
 		}},
@@ -375,6 +379,9 @@ func init() {
 			e := c.get(c.Argv[1])
 			if e == nil {
 				return Int(0)
+			}
+			if e.kind != 'l' {
+				return Err(wrongType)
 			}
 			return Int(int64(len(e.l)))
 		}},
@@ -1326,7 +1333,9 @@ func bitfield(c *Ctx, ro bool) Reply {
 		}
 	}
 	if changed {
-		c.set(k, &entry{kind: 's', s: string(b), expireAt: exp})
+		// b is private to this call and never touched again: view it as the new value without a second copy
+		// (matters for multi-megabyte bitmaps that get one BITFIELD SET per hash function)
+		c.set(k, &entry{kind: 's', s: unsafe.String(unsafe.SliceData(b), len(b)), expireAt: exp})
 	}
 	return Arr(out...)
 }
